@@ -172,6 +172,9 @@ func rewrite(filename string, src []byte, mode string) ([]byte, bool, error) {
 			changed = true
 		}
 	}
+	if addFailpoints(f) {
+		changed = true
+	}
 	if mode == "sched" {
 		c, err := rewriteSched(fset, f)
 		if err != nil {
@@ -193,4 +196,35 @@ func rewrite(filename string, src []byte, mode string) ([]byte, bool, error) {
 		return nil, false, err
 	}
 	return buf.Bytes(), true, nil
+}
+
+// failpoints: function name -> failpoint name (package vaxis only)
+var failpoints = map[string]string{"handleSequence": "handleSequence"}
+
+// addFailpoints puts vfail.Point(name) at the top of the listed functions.
+func addFailpoints(f *ast.File) bool {
+	if f.Name.Name != "vaxis" {
+		return false
+	}
+	done := false
+	for _, d := range f.Decls {
+		fd, ok := d.(*ast.FuncDecl)
+		if !ok || fd.Body == nil || fd.Recv == nil {
+			continue
+		}
+		name, ok := failpoints[fd.Name.Name]
+		if !ok {
+			continue
+		}
+		st := &ast.ExprStmt{X: &ast.CallExpr{
+			Fun:  &ast.SelectorExpr{X: ast.NewIdent("vfail"), Sel: ast.NewIdent("Point")},
+			Args: []ast.Expr{&ast.BasicLit{Kind: token.STRING, Value: strconv.Quote(name)}},
+		}}
+		fd.Body.List = append([]ast.Stmt{st}, fd.Body.List...)
+		done = true
+	}
+	if done {
+		addImport(f, "vfail", modPath+"/verifshim/vfail")
+	}
+	return done
 }
